@@ -31,3 +31,7 @@ def fill(chk, NA):
         'for every element, composite, segment and loop node of every selectable map (quick: one per definition signature) a conformant two-set carrier receives exactly one fault of every applicable kind of a 15-kind catalogue; the error tree must carry the predicted (segment position, element position, code, value), the AK3/AK4 or IK3/IK4 lines must itemise it, nothing else may be reported for non-structural kinds and the sibling set must stay accepted',
         'trusted: the grammar-based carrier generator and the applicability rules of the catalogue; faults on qualifier elements / syntax-note members are judged weakly (verdict false, error at that segment); out-of-place segments are decided at walker level by the C02 search',
         'exhaustive single-fault enumeration over all map nodes on the real validator', 'E3', 'DESIGN.md 3/C03')
+    chk('C11', 'model_checking',
+        'explicit-state BFS over all well-nested write histories of the real X12Writer to 8 (quick) / 12 (thorough) writes across 12 delimiter/eol/version settings plus 32 caller-delimiter settings; every state is also closed and re-read by the real X12Reader; every emitted text is compared with an independent list model; plus every prefix of regular multi-interchange documents',
+        'trusted: the list model and expected-text formatter in mc/c11.py, ref.recount/ref.nests and the merge key (all writer attributes except the sink); the re-read leg relies on X12Reader, which C04 checks',
+        'explicit-state breadth-first search of the real writer paired with a reference model', 'E2', 'DESIGN.md 3/C11')
